@@ -85,6 +85,8 @@ class Range(HeaderElement):
 			if (not start and not stop) or not __:
 				raise InvalidHeader(_(u'no range start/stop.'))
 			try:
+				if any(x and not x.isdigit() for x in (start, stop)):
+					raise ValueError()  # RFC 7233 Section 2.1: byte positions are 1*DIGIT
 				start = integer(start) if start else None
 				stop = integer(stop) if stop else None
 				if start and start < 0 or stop and stop < 0:
